@@ -5,8 +5,14 @@ import TdModel.Lemmas.C27b
 
 namespace TdModel.C27
 
-/-- The two source facts the invariant needs. -/
-def Good (cfg : Cfg) : Prop := cfg.handoutChecksDead = true ∧ cfg.createCancelReleases = true
+/-- The source facts the invariants need. -/
+def Good (cfg : Cfg) : Prop :=
+  cfg.handoutChecksDead = true ∧ cfg.createCancelReleases = true ∧ cfg.bgOffersWaiters = true ∧
+  cfg.totalUnderCheck = true ∧ cfg.resetAlways = true
+
+/-- With `resetAlways` the source's `dead` is the model's `markDead`. -/
+theorem markDeadCfg_good {cfg : Cfg} (h : cfg.resetAlways = true) (s : State) (c : Nat) : markDeadCfg cfg s c = markDead s c := by
+  simp [markDeadCfg, h]
 
 theorem liveCount_append (s : State) (cn : Conn) :
     List.countP (fun x => !x.dead) (s.conns ++ [cn]) = liveCount s + (if cn.dead then 0 else 1) := by
